@@ -94,7 +94,10 @@ def generate(rng, tier, idx):
             d = rng.choice(pk)
             edits.append({'m': 'add', 'p': '%s/files/new-%d.patch' % (d, rng.randrange(99)), 'k': 'file', 'c': 'patch', 'parents': True})
         elif k == 'modify' and roles['files']:
-            edits.append({'m': 'rewrite', 'p': rng.choice(roles['files']), 'c': 'modified %d' % rng.randrange(999)})
+            # (profiles/categories is the scripts' own input: editing it changes which directories they visit)
+            mf = [f for f in roles['files'] if f != 'profiles/categories']
+            if mf:
+                edits.append({'m': 'rewrite', 'p': rng.choice(mf), 'c': 'modified %d' % rng.randrange(999)})
         elif k == 'del':
             cands = [f for f in roles['files'] if roles['tags'].get(f) in ('AUX', 'DATA') and not f.endswith('metadata.xml')
                      and not f.startswith('profiles/')]
@@ -109,9 +112,22 @@ def generate(rng, tier, idx):
             edits.append({'m': 'add', 'p': 'eclass/new%d.eclass' % rng.randrange(9), 'k': 'file', 'c': 'eclass'})
         elif k == 'add-news':
             edits.append({'m': 'add', 'p': 'metadata/news/2021-item%d/item.en.txt' % rng.randrange(9), 'k': 'file', 'c': 'news', 'parents': True})
+    regen = []
+    if mode == 'meta' and rng.random() < 0.4:
+        # the periodic refresh: the generator runs again over its own output, possibly after edits
+        # (a new package arrives whole: ebuild and metadata.xml together - a package directory without
+        # an ebuild is not repository-shaped and makes the script switch Manifest formats later)
+        groups = {}
+        for e in edits:
+            key = os.path.dirname(e['p']) if '/newpkg' in e['p'] else id(e)
+            groups.setdefault(key, []).append(e)
+        glist = list(groups.values())
+        for _ in range(rng.choice([1, 1, 2])):
+            chosen = rng.sample(glist, rng.randrange(0, len(glist) + 1)) if glist else []
+            regen.append({'edits': [dict(e) for g_ in chosen for e in g_]})
     return {'prop': ID, 'order_key': '%016x' % rng.getrandbits(64), 'tree': g['tree'],
             'roles': {'package_dirs': roles['package_dirs'], 'categories': roles['categories']},
-            'dist': dist, 'mode': mode, 'edits': edits}
+            'dist': dist, 'mode': mode, 'edits': edits, 'regen': regen}
 
 
 def execute(sc):
@@ -208,6 +224,27 @@ def execute(sc):
                 violations.append(viol('fastgen.model-disagrees', '%s: model says %s %r' % (stage, mv.kind, dict(list(mv.offending.items())[:3])), sig=mv.kind))
         verify_and_audit('generator output')
         counters['meta_repos_checked'] = 1
+        for gi, rg in enumerate(sc.get('regen', [])):
+            for e in rg.get('edits', []):
+                w.mutate(dict(e, now_ns=clock.now_ns))
+            clock.advance(3600_000_000_000)
+            gen_fast_metamanifest.multiprocessing = _MP
+            gen_fast_metamanifest.datetime = make_datetime_shim(clock)
+            try:
+                with seam:
+                    seam.begin_op(opi)
+                    rr = call(lambda: gen_fast_metamanifest.gen_metamanifest(w.root, None) or True)
+            finally:
+                os.chdir(cwd)
+                gen_fast_metamanifest.multiprocessing = old_mp
+                gen_fast_metamanifest.datetime = old_dt
+            opi += 1
+            outcome.append(['regenerate', gi, rr[0], str(rr[1])[:60] if rr[0] != 'ok' else 'ok'])
+            if rr[0] != 'ok':
+                violations.append(viol('fastgen.script-failed', 'regeneration %d raised %s' % (gi, describe(rr)), sig='regen:%s:%s' % (rr[0], rr[1])))
+                break
+            verify_and_audit('regenerated output %d' % gi)
+            counters['regenerations'] = counters.get('regenerations', 0) + 1
         # update on the untouched tree finds nothing to change
         nwe = len(seam.write_events)
         snap0 = w.snapshot()
